@@ -27,7 +27,7 @@ Definition len (b : bytes) : N := N.of_nat (length b).
 (* THE switch.  false = current source.  After design/C16.fix.diff has been applied to
    common/address.go:BytesToAddress set it to true (and delete the three *_refuted
    theorems about bytes_to_address in Props/C16.v, see design/C16.md). *)
-Definition fix_applied : bool := false.
+Definition fix_applied : bool := true.
 
 (* ------------------------------------------------------------------ *)
 (* common/types.go Location.Context: Zone() >= 0 iff len >= 2, Region() >= 0 iff len >= 1 *)
